@@ -673,7 +673,7 @@ def div_mode(k, t, ylane, xlane=None):
         for par, tag in ((0, 'even lanes'), (1, 'odd lanes')):
             lanes = [i for i in range(t.W) if i % 2 == par]
             k.div_consts.append((v, ['%s == %dull' % (ylane(i), v) for i in lanes], set(lanes), tag))
-    k.div_quick = {3, (1 << (t.bits - 1)) + 1, (1 << t.bits) - 1}
+    k.div_quick = {3, (1 << (t.bits - 1)) + 1}
     k.partial = 'two obligations per divisor d in the lattice {%s} (mod 2^%d): the even (odd) lanes divide by d while the divisors of the odd (even) lanes are unconstrained, zero included; all dividends' % (', '.join(str(v) for v in lat), t.bits)
     return k
 
